@@ -259,8 +259,12 @@ def scan_file(rel, src):
         if skip[at]:
             return
         text = _norm(toks[lo:hi + 1])
-        sites.append({"file": rel, "fn": fn_of[at] or "<top>", "kind": kind, "text": text, "line": toks[at].line,
-                      "line_lo": toks[lo].line, "line_hi": toks[hi].line})
+        site = {"file": rel, "fn": fn_of[at] or "<top>", "kind": kind, "text": text, "line": toks[at].line,
+                "line_lo": toks[lo].line, "line_hi": toks[hi].line}
+        if kind == "arith" and site["fn"] == "validate_type":
+            site["branch"] = _match_branch(toks, fn_of, at)
+            site["operands"] = (_norm(toks[lo:at]), _norm(toks[at + 1:hi + 1]), toks[at].t)
+        sites.append(site)
 
     def chain_start(j):
         """first token of the postfix chain (`a.b::<T>(x)?[i].c`) whose last token is toks[j]"""
@@ -388,6 +392,34 @@ def scan_file(rel, src):
         s["ord"] = k
         s["key"] = base + ("" if k == 0 else "#%d" % k)
     return sites
+
+
+def _match_branch(toks, fn_of, at):
+    """the match arm of utils.rs validate_type a token belongs to: the nearest preceding `Ordering::Greater|Less|Equal`
+    pattern or `other if` guard inside the same fn"""
+    f = fn_of[at]
+    j = at
+    while j >= 2 and fn_of[j] == f:
+        if toks[j].t in ("Greater", "Less", "Equal") and toks[j - 1].t == "::" and toks[j - 2].t == "Ordering" \
+                and j + 1 < len(toks) and toks[j + 1].t == "=>":
+            return toks[j].t
+        if toks[j].t == "other" and toks[j + 1].t == "if":
+            return "Other"
+        j -= 1
+    return "None"
+
+
+def _vt_operand(text):
+    text = text.strip()
+    while text.startswith("(") and text.endswith(")"):
+        text = text[1:-1].strip()
+    if text == "self . len ( )":
+        return "VSelfLen"
+    if text == "elems . len ( )":
+        return "VElemsLen"
+    if text.isdigit() and int(text) < 1000:
+        return "(VConst %s)" % text
+    return "VUnknown"
 
 
 def _inside_paren(toks, partner, i):
@@ -548,6 +580,19 @@ def generate(path=None):
             coq_string(s["key"]), coq_string(s["file"]), coq_string(s["fn"]), kmap[s["kind"]], s["line"],
             coq_string(s["text"][:160])))
     lines.append(";\n".join(rows))
+    lines.append("].")
+    lines.append("")
+    lines.append("(* the usize subtractions of utils.rs fields_ext::FieldsExt::validate_type: (match arm, left operand, right operand) *)")
+    lines.append("Inductive vt_branch := VBGreater | VBLess | VBEqual | VBOther | VBNone.")
+    lines.append("Inductive vt_operand := VSelfLen | VElemsLen | VConst (n : nat) | VUnknown.")
+    lines.append("Definition validate_type_subs : list (vt_branch * vt_operand * vt_operand) := [")
+    subs = []
+    for st in sites:
+        if st.get("operands") and st["file"] == "utils.rs":
+            l, r, o = st["operands"]
+            lo_, ro_ = (_vt_operand(l), _vt_operand(r)) if o == "-" else ("VUnknown", "VUnknown")
+            subs.append("  (VB%s, %s, %s)" % (st["branch"], lo_, ro_))
+    lines.append(";\n".join(subs))
     lines.append("].")
     lines.append("")
     lines.append("(* (trait, module) of every create_derive! of impl/src/lib.rs *)")
